@@ -38,7 +38,7 @@ Definition feqb (a b : f32) : bool :=
 Definition fin_scaled (x : f32) : option Z :=
   match x with
   | B754_zero _ => Some 0
-  | B754_finite s m e _ => Some (cond_Zopp s (Zpos m) * 2 ^ (e + 149))
+  | B754_finite s m e _ => Some (Z.shiftl (cond_Zopp s (Zpos m)) (e + 149))   (* m * 2^(e+149), e >= -149 *)
   | _ => None
   end.
 
@@ -103,19 +103,21 @@ Definition f32_terms (N : nat) (pssm : list (list f32)) (s : list nat) (i : nat)
   score_terms F32.zero N pssm s i.
 Definition f32_sum (l : list f32) : f32 := fold_left F32.add l F32.zero.
 
-(* all values of one scan: the count must be L + 1 - M and every value must pass *)
-Fixpoint check_values_from (N : nat) (pssm : list (list f32)) (s : list nat) (i : nat)
+(* all values of one scan: the count must be L + 1 - M and every value must pass.
+   [st] is the part of the sequence from the current position on (the terms of position i
+   are read from [skipn i s] at offset 0, which keeps the walk linear in L) *)
+Fixpoint check_values_from (N : nat) (pssm : list (list f32)) (st : list nat)
          (vals : list f32) : verdict :=
   match vals with
   | [] => VExact
   | v :: r =>
-      let t := f32_terms N pssm s i in
-      worse (check_value t (f32_sum t) v) (check_values_from N pssm s (S i) r)
+      let t := f32_terms N pssm st 0 in
+      worse (check_value t (f32_sum t) v) (check_values_from N pssm (tl st) r)
   end.
 
 Definition check_values (N : nat) (pssm : list (list f32)) (s : list nat) (vals : list f32) : verdict :=
   if Nat.eqb (length vals) (length s + 1 - length pssm)
-  then check_values_from N pssm s 0 vals
+  then check_values_from N pssm s vals
   else VBad 9.
 
 (* the property checker behind the driver's PROPFAIL decision *)
